@@ -1,3 +1,7 @@
+#[cfg(feature = "verif")]
+#[allow(unused_imports)]
+use qbice_verif_rt::{tokio, std, parking_lot};
+
 use std::{
     sync::{Arc, Weak},
     thread,
